@@ -41,6 +41,8 @@ TARGETS = [
         defers=dict(rettype='int', scoped_lock=('spin_lock() /* {0} */', 'spin_unlock() /* {0} */')),
         marks={'count': 1, 0: dict(name='QDL', frame=['this', 'ret', 'ret_', 'N_CVWAIT', 'CV_FAIL', 'Q_LAST_SEEN'],
                effects={'TRY_FN': ['this', 'Q_LAST_SEEN'], 'q_cv_wait': ['N_CVWAIT', 'CV_FAIL']}, pure=[])}),
+    Target('q_lock', TH, r'int lock\(int mode, Timeout timeout = \{\}\) (?=\{\s*if \(mode == WLOCK\)\s*return do_lock)', rules=[
+        (r'do_lock\(\[this\] \{ return (__trylock\w*)\(\); \}, (cv_\w+),\s*timeout\)', r'do_lock_stub(this, TRYID_\1, CVID_\2)', 1)]),
 ]
 UNITS = {'rw.c': 'rw.c.in'}
 PROOFS = [
@@ -49,6 +51,8 @@ PROOFS = [
     Proof('qrwlock/try', 'rw.c', 'h_q_try', kind='L', min_obligations=3, backend='cadical'),
     Proof('qrwlock/unlock', 'rw.c', 'h_q_unlock', kind='L', min_obligations=3, backend='cadical'),
     Proof('qrwlock/do_lock', 'rw.c', 'h_q_do_lock', kind='L', min_obligations=3, backend='cadical'),
+    Proof('qrwlock/do_lock_shared', 'rw.c', 'h_q_do_lock_shared', kind='L', min_obligations=3),
+    Proof('qrwlock/lock_dispatch', 'rw.c', 'h_q_lock', kind='L', min_obligations=3),
     Proof('lemma/exclusion', 'rw.c', 'lemma_rw_exclusion', kind='L', min_obligations=1, backend='cadical'),
 ]
 NATIVES = []
